@@ -31,7 +31,7 @@ def gen_line(mask, mode, rnd):
 
 def check(ctx):
     ctx.rule = ("all 2^11 subsets of the carried fields (flags, rate, channel, signal, TX power, RX flags, TX flags, RTS retries, data retries, MCS, timestamp), each with zero / all-ones / boundary / random values "
-                "(exhaustive over subsets): libwifi_create_radiotap into an exact 128-byte block, then libwifi_parse_radiotap_info on the result; compared with the model, with the Spec encoder "
+                "(exhaustive over subsets), and the channel field alone with ALL 65 536 frequency values: libwifi_create_radiotap into an exact 128-byte block, then libwifi_parse_radiotap_info on the result; compared with the model, with the Spec encoder "
                 "(version 0, length = bytes produced, present word, fields little-endian at aligned offsets in bit order) and with the supplied values; distinct = (op, output); "
                 "classification invariance: headers produced by the real generator for sampled subsets are prepended to frames of every header kind (management ordered / unordered, control, data, QoS data, extension) at lengths around "
                 "the header length (h-18 .. h+1, h+30), an FCS appended when the flags announce one; the classification with the prefix must equal the classification of the bare frame (length, header length, header, body, QoS / ordered flags, data extraction); "
@@ -52,6 +52,9 @@ def check(ctx):
             lines.append(gen_line(m, mode, rnd))
     ctx.coverage["exhaustive"] = True
     c_outs, _, _ = fw.run_suite(ctx, exe, "S-rtg/carried-subsets", lines, "radiotap generation")
+    # every value of the 16-bit channel frequency (the decode derives band and channel number from it), with random flags
+    fl = ["rtg present=0x8,freq=%d,cfl=%d" % (f, rnd.choice([0, 0xffff, 0x00a0, 0x0140, rnd.getrandbits(16)])) for f in range(65536)]
+    fw.run_suite(ctx, exe, "S-rtg/all-frequencies", fl, "radiotap generation and decode of every channel frequency")
     # alignment of the generated fields is relative to the start of the header, wherever the caller's buffer lies
     mis = rnd.sample(lines, min(len(lines), 900 if ctx.tier == "quick" else 6000))
     for k in (1, 2, 4):
